@@ -1261,7 +1261,7 @@ def swu_curves(tier):
 EC2_FIELDS_QUICK = [((70, 5, 3, 1), 5, [(0, 1), (1, 3), (2, 5)]), ((70, 5, 3, 1), 7, [(1, 1), (2, 3)]), ((77, 6, 5, 2), 7, [(0, 3)]),
                     ((105, 4, 0, 0), 5, [(1, 7)])]
 EC2_FIELDS_THOROUGH = EC2_FIELDS_QUICK + [((105, 4, 0, 0), 7, [(0, 1), (5, 2)]), ((110, 33, 0, 0), 5, [(0, 9), (3, 1)]),
-                                          ((77, 6, 5, 2), 11, [(1, 1)]), ((110, 33, 0, 0), 11, [(2, 7)])]
+                                          ((77, 6, 5, 2), 11, [(1, 1)])]
 EC2_FIELDS_W32 = [((35, 2, 0, 0), 5, [(2, 1)]), ((35, 2, 0, 0), 7, [(1, 2)])]
 EC2_FIELDS_W32_THOROUGH = [((44, 5, 0, 0), 11, [(0, 3)])]
 
@@ -1629,7 +1629,7 @@ def all_cases(tier, tables_out):
                         new.append({'kind': 'scalar', 'cfg': cfg, 'cid': cid, 'spec': spec, 'm': m, 'layout': layout, 'mode': 0, 'pts': 'reps' if nU > 40 else 'all'})
                     new.append({'kind': 'scalar', 'cfg': cfg, 'cid': cid, 'spec': spec, 'm': m, 'layout': 'mid', 'mode': 1, 'pts': 'reps' if nU > 40 else 'all'})
                 if nU <= 300:
-                    new += [x for x in addmul_cases(cfg, cid, spec, nU, tier) if x['sub'] in (('k1m', 'k2', 'k3') if tier == 'thorough' else ('k1m', 'k2'))]
+                    new += [x for x in addmul_cases(cfg, cid, spec, nU, tier) if x['sub'] in (('k1m', 'k2', 'k3') if tier == 'thorough' and nU <= 100 else ('k1m', 'k2'))]
                 new.append({'kind': 'ison', 'cfg': cfg, 'cid': cid, 'spec': spec})
             for x in new:
                 x['tjob'] = job; x['nU'] = nU; x['bits'] = bits
